@@ -18,7 +18,9 @@ def who(request, encoding='utf-8'):
     ip = request.remote.ip
     agent = request.headers.get('User-Agent', '')
 
-    return sha(f'{ip}{agent}'.encode(encoding)).hexdigest()
+    # the separator cannot occur in an address, so different (ip, agent) pairs
+    # never produce the same text ('10.0.0.1' + '1x' vs. '10.0.0.11' + 'x')
+    return sha(f'{ip}|{agent}'.encode(encoding)).hexdigest()
 
 
 def create_session(request):
